@@ -26,15 +26,33 @@ fn ns(cfg: &Cfg) -> Vec<usize> {
     }
 }
 
-/// on-the-fly input (no allocation): positive, non-constant, bounded
+/// on-the-fly input (no allocation): positive, bounded.  Five modes, chosen from the seed: a
+/// state that grows only on particular inputs (ties, flat windows, zeros of an inner view, a
+/// value sitting on the mean) must be reached too, not just generic noise.
 #[inline]
-fn input(state: &mut u64) -> f64 {
+fn input(state: &mut u64, mode: u64, t: usize) -> f64 {
     *state = state.wrapping_mul(6364136223846793005).wrapping_add(1442695040888963407);
-    1.0 + ((*state >> 40) & 0xFFFF) as f64 / 256.0
+    let r = (*state >> 40) & 0xFFFF;
+    match mode {
+        0 => 1.0 + r as f64 / 256.0,           // noise
+        1 => 42.5,                              // constant: every window flat
+        2 => 1.0 + (r % 3) as f64,              // three levels: ties everywhere
+        3 => {
+            // long flat stretches separated by short noisy ones
+            if (t / 257) % 2 == 0 {
+                7.0
+            } else {
+                1.0 + r as f64 / 256.0
+            }
+        }
+        _ => 1.0 + ((t % 16) as f64),           // strictly periodic saw-tooth (period 16)
+    }
 }
 
 fn measure(spec: &Spec, l: usize, seed: u64, out: &mut TrialOut, cell: &str) {
-    out.key(mix(hash_str(&spec.show()), l as u64));
+    let mode = seed % 5;
+    out.key(mix(hash_str(&spec.show()), mix(l as u64, mode)));
+    out.count(&format!("input_mode_{}", mode), 1);
     let mut st = seed | 1;
     alloc::start();
     let built = crate::report::guarded(|| build_plain::<f64>(spec));
@@ -48,7 +66,7 @@ fn measure(spec: &Spec, l: usize, seed: u64, out: &mut TrialOut, cell: &str) {
     let mut calls = [0u64; 3];
     for (slot, target) in [l, 4 * l, 16 * l].iter().enumerate() {
         while fed < *target {
-            v.update(input(&mut st));
+            v.update(input(&mut st, mode, fed));
             fed += 1;
             if fed % 64 == 0 {
                 let _ = v.last();
@@ -72,13 +90,14 @@ fn measure(spec: &Spec, l: usize, seed: u64, out: &mut TrialOut, cell: &str) {
             "live-bytes-grow-with-length",
             "any",
             format!(
-                "{} at f64: live heap bytes owned by the view: {} after L={} updates, {} after 4L, {} after 16L (last() = {:?}); input = 1 + 16-bit LCG / 256, seed {}",
+                "{} at f64: live heap bytes owned by the view: {} after L={} updates, {} after 4L, {} after 16L (last() = {:?}); input mode {} (0 noise, 1 constant, 2 three levels, 3 flat stretches, 4 saw-tooth), seed {}",
                 spec.show(),
                 bytes[0],
                 l,
                 bytes[1],
                 bytes[2],
                 last,
+                mode,
                 seed
             ),
         );
@@ -99,7 +118,7 @@ fn measure(spec: &Spec, l: usize, seed: u64, out: &mut TrialOut, cell: &str) {
 fn plan_sizes(cfg: &Cfg) -> (u64, u64, u64) {
     let nn = ns(cfg).len() as u64;
     let u = all_unary(3).len() as u64;
-    (nn * u, nn * 8, cfg.tier.pick(150, 3000))
+    (nn * u * 2, nn * 8 * 3, cfg.tier.pick(300, 3000))
 }
 
 impl Monitor for C18 {
@@ -118,7 +137,7 @@ impl Monitor for C18 {
         let base_l = cfg.tier.pick(4096usize, 16384);
         if idx < a {
             let n = nlist[(idx % nn) as usize];
-            let k = catalogue::bump_n(all_unary(n)[(idx / nn) as usize], n);
+            let k = catalogue::bump_n(all_unary(n)[((idx / nn) % all_unary(3).len() as u64) as usize], n);
             let n_eff = k.n().unwrap_or(1);
             let l = base_l.max(8 * (n_eff + 12));
             // thorough: every 7th single view gets the long run (16L = 4e6)
@@ -129,6 +148,7 @@ impl Monitor for C18 {
             let n = nlist[(j % nn) as usize].max(3);
             let mk = if (j / nn) % 2 == 0 { MaK::Pfe } else { MaK::Eft };
             let ma = catalogue::ma_specs(rng.usize(1, 9))[((j / (2 * nn)) % 4) as usize].clone();
+            let _ = j / (8 * nn);
             let spec = Spec::ma(mk, n, Spec::Echo, ma);
             let l = base_l.max(8 * (n + 12));
             measure(&spec, l, rng.next(), out, &format!("view/{}", spec.top()));
@@ -160,7 +180,7 @@ impl Monitor for C18 {
         names
     }
     fn rule(&self) -> String {
-        "trial = one view (every kind x N grid), PFE/EFT with each moving average, or a random 2-3 level chain / combinator; the harness' counting global allocator meters the bytes the instance owns after L, 4L and 16L updates (L >= 4096 and >= 8 windows; long runs to 16L = 4e6 in thorough); violation iff bytes(4L) > bytes(L) or bytes(16L) > bytes(L) (exact integer comparison). distinct = distinct (tree, L); non-trivial = both comparisons made".into()
+        "trial = one view (every kind x N grid), PFE/EFT with each moving average, or a random 2-3 level chain / combinator, driven by one of five input modes (noise, constant, three levels, long flat stretches, saw-tooth); the harness' counting global allocator meters the bytes the instance owns after L, 4L and 16L updates (L >= 4096 and >= 8 windows; long runs to 16L = 4e6 in thorough); violation iff bytes(4L) > bytes(L) or bytes(16L) > bytes(L) (exact integer comparison). distinct = distinct (tree, L); non-trivial = both comparisons made".into()
     }
     fn assumptions(&self) -> Vec<String> {
         vec![
